@@ -1,0 +1,117 @@
+//go:build verif
+
+package vm
+
+import (
+	"unsafe"
+
+	"github.com/elk-language/elk/value"
+)
+
+// Thin wrappers used by the /verif harness (properties C13, C10) to drive the
+// value stack, the open-upvalue list and the call frames of a real *Thread
+// without running bytecode. Add-only; compiled only with the `verif` build tag.
+// None of the wrappers checks bounds: the harness does, so that it never asks
+// for an access the VM itself would perform outside the stack.
+
+// VerifFrame is the address-free view of a call frame.
+type VerifFrame struct {
+	FpOffset int // byte offset of the saved frame pointer from &stack[0]
+	Upvalues []*Upvalue
+}
+
+// Number of slots of the value stack (including the sentinel slot).
+func (vm *Thread) VerifStackLen() int { return len(vm.stack) }
+
+// Byte offsets of sp and fp from &stack[0].
+func (vm *Thread) VerifSpBytes() int {
+	return int(int64(vm.sp) - int64(uintptr(unsafe.Pointer(&vm.stack[0]))))
+}
+
+func (vm *Thread) VerifFpBytes() int {
+	return int(int64(vm.fp) - int64(uintptr(unsafe.Pointer(&vm.stack[0]))))
+}
+
+func (vm *Thread) VerifPush(v value.Value) { vm.push(v) }
+func (vm *Thread) VerifPop()               { vm.pop() }
+
+// Read a slot of the backing array by index (no frame arithmetic).
+func (vm *Thread) VerifStackAt(i int) value.Value { return vm.stack[i] }
+
+func (vm *Thread) VerifGetLocal(i int) value.Value    { return vm.getLocalValue(i) }
+func (vm *Thread) VerifSetLocal(i int, v value.Value) { vm.setLocalValue(i, v) }
+
+// captureUpvalue on local slot i of the current frame.
+func (vm *Thread) VerifCaptureUpvalue(i int) *Upvalue {
+	return vm.captureUpvalue(vm.fpAdd(i))
+}
+
+// opCloseUpvalues from local slot i of the current frame (that slot and all above).
+func (vm *Thread) VerifCloseUpvalues(i int) {
+	vm.opCloseUpvalues(vm.fpAddRaw(uintptr(i)))
+}
+
+// The open-upvalue list, head first.
+func (vm *Thread) VerifOpenUpvalues() []*Upvalue {
+	var out []*Upvalue
+	for u := vm.openUpvalueHead; u != nil; u = u.next {
+		out = append(out, u)
+	}
+	return out
+}
+
+// Byte offset of the upvalue's slot pointer from &stack[0] (meaningful for open upvalues).
+func (vm *Thread) VerifUpvalueSlotBytes(u *Upvalue) int {
+	return int(int64(uintptr(unsafe.Pointer(u.slot))) - int64(uintptr(unsafe.Pointer(&vm.stack[0]))))
+}
+
+// The value stored in a closed upvalue (its `closed` field, not through the slot pointer).
+func (u *Upvalue) VerifClosedValue() value.Value { return u.closed }
+
+// Upvalues of the running frame.
+func (vm *Thread) VerifCurrentUpvalues() []*Upvalue { return vm.upvalues }
+
+// GET_UPVALUE / SET_UPVALUE of the running frame.
+func (vm *Thread) VerifGetFrameUpvalue(i int) value.Value    { return vm.getUpvalueValue(i) }
+func (vm *Thread) VerifSetFrameUpvalue(i int, v value.Value) { vm.setUpvalueValue(i, v) }
+
+// Number of live call frames.
+func (vm *Thread) VerifCallDepth() int { return vm.cfpOffset() }
+
+// Live call frames, outermost first.
+func (vm *Thread) VerifFrames() []VerifFrame {
+	n := vm.cfpOffset()
+	out := make([]VerifFrame, n)
+	for i := 0; i < n; i++ {
+		cf := &vm.callFrames[i]
+		out[i] = VerifFrame{
+			FpOffset: int(int64(cf.fp) - int64(uintptr(unsafe.Pointer(&vm.stack[0])))),
+			Upvalues: cf.upvalues,
+		}
+	}
+	return out
+}
+
+var verifReturnCode = []byte{0}
+
+func verifDummyFunction(argc int) *BytecodeFunction {
+	return &BytecodeFunction{Instructions: verifReturnCode, parameterCount: argc}
+}
+
+// callBytecodeClosure: the top argc+1 slots become the callee's frame, the
+// closure's upvalues become current.
+func (vm *Thread) VerifCallClosure(upvalues []*Upvalue, argc int) {
+	closure := &BytecodeClosure{VMID: vm.ID, Bytecode: verifDummyFunction(argc), Upvalues: upvalues}
+	vm.callBytecodeClosure(closure, &CallSiteInfo{ArgumentCount: argc})
+}
+
+// callBytecodeFunction: the top argc+1 slots become the callee's frame; grows
+// the value stack when it is more than 70% full.
+func (vm *Thread) VerifCallFunction(argc int) {
+	vm.callBytecodeFunction(verifDummyFunction(argc), argc)
+}
+
+// restoreLastFrame: closes the frame's upvalues, pops the frame, leaves the return value.
+func (vm *Thread) VerifReturn() { vm.restoreLastFrame() }
+
+func (vm *Thread) VerifGrowValueStack() { vm.growValueStack() }
